@@ -93,6 +93,10 @@ impl Config {
 	}
 
 	pub fn get_hook(&self, name: &str) -> Result<Vec<hooks::Hook>, Error> {
+		self.get_hook_rec(name, &mut vec![])
+	}
+
+	fn get_hook_rec(&self, name: &str, path: &mut Vec<String>) -> Result<Vec<hooks::Hook>, Error> {
 		for hook in self.hook.iter() {
 			if name == hook.name {
 				let h = hooks::Hook {
@@ -112,11 +116,16 @@ impl Config {
 		}
 		for grp in self.group.iter() {
 			if name == grp.name {
+				if path.iter().any(|n| n == name) {
+					return Err(format!("{name}: hook group includes itself").into());
+				}
+				path.push(name.to_string());
 				let mut ret = vec![];
 				for hook_name in grp.hooks.iter() {
-					let mut h = self.get_hook(hook_name)?;
+					let mut h = self.get_hook_rec(hook_name, path)?;
 					ret.append(&mut h);
 				}
+				path.pop();
 				return Ok(ret);
 			}
 		}
